@@ -34,25 +34,25 @@ def plan(tier, seed):
     specs = []
     # targets with dynamic reordering enabled: every position of the
     # trigger during the copy (machinery of C09)
-    for s_ in range(6 if tier == 'thorough' else 2):
+    for s_ in range(16 if tier == 'thorough' else 2):
         specs.append(dict(kind='schedule', seed=seed * 100 + 80 + s_,
                           only=['copy', 'ar_copy_bdd', '_copy_copy_bdd'],
-                          examples=240 if tier == 'thorough' else 36))
+                          examples=400 if tier == 'thorough' else 36))
     for n in (1, 2, 3):
         for so in fix.orders(n):
             specs.append(dict(kind='pairs', n=n, source=so,
                               targets=fix.orders(n), seed=seed,
                               reordered_source=(so != sorted(so))))
-    k = 8 if tier == 'thorough' else 3
+    k = 24 if tier == 'thorough' else 3
     r = random.Random(f'c11:{seed}')
     o4 = fix.orders(4)
     for _ in range(k):
         so, to = r.sample(o4, 2)
         specs.append(dict(kind='pairs', n=4, source=so, targets=[to],
                           seed=seed))
-    for s in range(8 if tier == 'thorough' else 3):
+    for s in range(32 if tier == 'thorough' else 3):
         specs.append(dict(kind='random', seed=seed * 100 + s,
-                          examples=800 if tier == 'thorough' else 200))
+                          examples=2000 if tier == 'thorough' else 200))
     return specs
 
 
